@@ -73,6 +73,10 @@ theorem fix_value_legal (v : Str) : LegalValue (fixValue v) := by
     · rename_i hk; rw [valueKeep_eq_match] at hk; exact (valueClass_iff x).1 hk
     · unfold XmlChar; omega
 
+/-- the character class that `_fix_name` / `_fix_value` test is the class they keep when they repair
+    (read from the two regular expressions of each function) -/
+theorem fix_classes_agree : nameKeepClass = nameMatchClass ∧ valueKeepClass = valueMatchClass := by decide
+
 /-- `_fix_name` is the identity on legal names, whatever the namespace context. -/
 theorem fix_identity_on_legal_name (s : PState) (uri n : Str) (h : LegalName n) : fixName s uri n = .ok (uri, n) := by
   match n, h with
